@@ -6,3 +6,5 @@ import GeoVerif.Corr.Proto
 import GeoVerif.Corr.C16
 import GeoVerif.Model.GridCodes
 import GeoVerif.Corr.C18
+import GeoVerif.Model.UTMUPS
+import GeoVerif.Corr.C04
